@@ -51,9 +51,9 @@ const (
 	// sweep (ttl.go cleanup)
 	vpSweepGrabbed   = 50 // after the bucket grab (observe: lastCleaned, current)
 	vpSweepKey       = 51 // next key of a grabbed bucket (observe: key, conflict)
-	vpSweepChecked   = 52 // after store.Expiration + the After test passed
-	vpSweepPolicyDel = 53 // after policy.Del
-	vpSweepStoreDel  = 54 // after store.Del, before onEvict
+	vpSweepChecked   = 52 // (unused since the check and the delete are one critical section)
+	vpSweepPolicyDel = 53 // after policy.Del, before onEvict
+	vpSweepStoreDel  = 54 // after store.DelExpired removed the entry, before policy.Del
 	// policy (policy.go)
 	vpPolSample     = 60 // fillSample appended (observe: key, cost)
 	vpPolIncHits    = 61 // Add: incoming estimate (observe: key, hits)
